@@ -105,16 +105,57 @@ def run(pid: str, tier: str, seed: int, selftest=False, replay=None) -> int:
     for k in range(n):
         with_spaces = k % 3 == 0
         jobs.append((f"gen:{seed}:{k}", gen_func(rng, with_spaces), with_spaces, None))
+    # constants that are not in local memory: constant -> memory-space cast to L1 -> (chain of) layout cast(s) -> accelerator op;
+    # the other operands are arguments that already live in L1
+    for k in range(30 if quick else 300):
+        lt = mt("", "L1")
+        rows = ", ".join("[" + ", ".join(str(r * 4 + c) for c in range(4)) + "]" for r in range(4))
+        lines = [f"    %cst = arith.constant dense<[{rows}]> : {mt()}", f'    %m = "memref.memory_space_cast"(%cst) : ({mt()}) -> {lt}']
+        v, t = "%m", lt
+        for j in range(rng.choice([0, 1, 1, 2])):
+            nt = mt(rng.choice(LAYOUTS), "L1")
+            lines.append(f'    %k{j} = "snax.layout_cast"({v}) : ({t}) -> {nt}')
+            v, t = f"%k{j}", nt
+        for q in range(rng.choice([1, 1, 2])):
+            ins = [(v, t), ("%a", lt)]
+            rng.shuffle(ins)
+            lines.append(f'    linalg.generic {{indexing_maps = [{ID2}, {ID2}, {ID2}], iterator_types = ["parallel", "parallel"]}} '
+                         f'ins({ins[0][0]}, {ins[1][0]} : {ins[0][1]}, {ins[1][1]}) outs(%b : {lt}) attrs = {{tag = {q + 1} : i32}} {{')
+            lines += ["    ^bb0(%x : i8, %y : i8, %z : i8):", "      %mm = arith.muli %x, %y : i8", "      linalg.yield %mm : i8", "    }"]
+        text = ("builtin.module {\n  func.func public @f(%a : " + lt + ", %b : " + lt + ", %c : " + lt + ", %n : index) {\n" + "\n".join(lines)
+                + "\n    func.return\n  }\n}\n")
+        jobs.append((f"constchain:{seed}:{k}", text, "l1", None))
+    # a buffer the function allocates, fills through a (chain of) cast(s) and returns to its caller in external memory
+    for k in range(30 if quick else 300):
+        lt, et = mt("", "L1"), mt("", "L3")
+        lines = [f"    %l = memref.alloc() : {lt}"]
+        v, t = "%l", lt
+        for j in range(rng.choice([1, 1, 2])):
+            nt = mt(rng.choice(LAYOUTS), "L1")
+            lines.append(f'    %k{j} = "snax.layout_cast"({v}) : ({t}) -> {nt}')
+            v, t = f"%k{j}", nt
+        lines.append(f'    linalg.generic {{indexing_maps = [{ID2}, {ID2}, {ID2}], iterator_types = ["parallel", "parallel"]}} '
+                     f'ins(%a, %b : {lt}, {lt}) outs({v} : {t}) attrs = {{tag = 1 : i32}} {{')
+        lines += ["    ^bb0(%x : i8, %y : i8, %z : i8):", "      %mm = arith.muli %x, %y : i8", "      linalg.yield %mm : i8", "    }"]
+        if rng.random() < 0.5:
+            lines.append(f'    linalg.generic {{indexing_maps = [{ID2}, {ID2}, {ID2}], iterator_types = ["parallel", "parallel"]}} '
+                         f'ins({v}, %a : {t}, {lt}) outs(%c : {lt}) attrs = {{tag = 2 : i32}} {{')
+            lines += ["    ^bb0(%x : i8, %y : i8, %z : i8):", "      %mm = arith.muli %x, %y : i8", "      linalg.yield %mm : i8", "    }"]
+        lines.append(f'    %r = "memref.memory_space_cast"(%l) : ({lt}) -> {et}')
+        text = ("builtin.module {\n  func.func public @f(%a : " + lt + ", %b : " + lt + ", %c : " + lt + ", %n : index) -> " + et + " {\n" + "\n".join(lines)
+                + "\n    func.return %r : " + et + "\n  }\n}\n")
+        jobs.append((f"returned:{seed}:{k}", text, "l1", None))
     for name, text, with_spaces, wargdom in jobs:
         try:
             src = repo.parse(text)
             src.verify()
         except Exception as e:
             raise MachineryError(f"generator produced invalid input {name}: {e}\n{text}")
-        pipe = "set-memory-space,realize-memref-casts" if with_spaces else "realize-memref-casts"
+        pipe = "set-memory-space,realize-memref-casts" if with_spaces is True else "realize-memref-casts"
         m = src.clone()
         try:
             repo.run_pipeline(m, pipe)
+            m.verify()
         except Exception as e:
             rep.evaluations += 1
             rep.violation(name, f"{pipe} raised {type(e).__name__}: {str(e)[:200]}", {"source": text, "exception": traceback.format_exc(limit=6)})
@@ -127,7 +168,7 @@ def run(pid: str, tier: str, seed: int, selftest=False, replay=None) -> int:
         ia, ib = image_of(fa), image_of(fb)
         for im in (ia, ib):
             im["allocsite"], im["track"] = 1, 1
-        if with_spaces:
+        if with_spaces is True:
             # function boundaries keep their external memory space
             ext = [str(a.type.memory_space) for a in fb.body.block.args if hasattr(a.type, "memory_space")]
             if any('"L1"' in e for e in ext):
